@@ -127,7 +127,7 @@ type c17Case struct {
 type c17St struct {
 	Filter string `json:"filter"`
 	B      *numOp `json:"b,omitempty"`
-	Wrap   bool   `json:"wrap,omitempty"` // the argument is written as a parenthesised filtered expression with the same value: (cK | default: 1)
+	Wrap   bool   `json:"wrap,omitempty"` // the argument is written as a parenthesised filtered expression with the same value: (cK | default: 1), for an integer also (cK | ceil) / (cK | floor)
 }
 
 func (c *c17Case) source() (string, map[string]any) {
@@ -143,7 +143,12 @@ func (c *c17Case) source() (string, map[string]any) {
 			name := fmt.Sprintf("c%d", i)
 			b[name] = st.B.goValue()
 			if st.Wrap && (st.B.Kind == "int" || st.B.Kind == "float") {
-				name = "(" + name + " | default: 1)"
+				if st.B.Kind == "int" && i%2 == 0 {
+					// "ceil and floor return integers": of an integer, that integer
+					name = "(" + name + " | " + []string{"ceil", "floor"}[(i/2)%2] + ")"
+				} else {
+					name = "(" + name + " | default: 1)"
+				}
 			}
 			src += ": " + name
 		}
